@@ -103,17 +103,81 @@ class Skel:
                 self.body(p.global_decls, "globals")]
 
 
+ONE_LINE_CMDS = ("LCDWrite", "LCDLine", "LCDClear", "LCDProgress")
+OTHER_LCD_CMDS = ("LCDMessage", "LCDDisplay", "LCDBacklight", "LCDBrightness", "LCDGlyph", "LCDAnimate", "LCDTick")
+
+
+class Items:
+    """the same walk, keeping the argument fields of ServoDecl / LCDDecl and the LCD commands that emit exactly
+    one line (wire encoding of coq/Tool/LibObjs.v `item`, see coq/Wire/C14W.v case 1)"""
+
+    def __init__(self):
+        self.unsupported = []
+
+    def val(self, v, where):
+        if v is None:
+            return []
+        if isinstance(v, bool) or not isinstance(v, (int, str)):
+            self.unsupported.append(f"{where}: field value {v!r} ({type(v).__name__})")
+            return []
+        return [0, v] if isinstance(v, int) else [1, v]
+
+    def pulse(self, v, where):
+        if isinstance(v, float) and v == v and abs(v) != float("inf"):
+            n, d = v.as_integer_ratio()
+            return [2, {"frac": [n, d]}]
+        if isinstance(v, bool) or not isinstance(v, (int, str)):
+            self.unsupported.append(f"{where}: pulse bound {v!r} ({type(v).__name__})")
+            return [0, 0]
+        return [0, v] if isinstance(v, int) else [1, v]
+
+    def body(self, nodes, where):
+        return [self.node(n, where) for n in nodes] if isinstance(nodes, list) else []
+
+    def node(self, n, where):
+        t = type(n).__name__
+        if isinstance(n, A.ServoDecl):
+            return [0, str(n.name), self.val(n.pin, where), self.pulse(n.min_pulse_us, where), self.pulse(n.max_pulse_us, where)]
+        if isinstance(n, A.LCDDecl):
+            if n.interface not in ("parallel", "i2c"):
+                self.unsupported.append(f"{where}: LCDDecl.interface={n.interface!r}")
+            return [1, str(n.name), 1 if n.interface == "i2c" else 0] + [
+                self.val(getattr(n, f), where) for f in ("cols", "rows", "rs", "en", "d4", "d5", "d6", "d7", "rw", "backlight_pin", "i2c_addr")]
+        if isinstance(n, A.IfStatement):
+            return [5, [self.body(b.body, where) for b in n.branches] + [self.body(n.else_body, where)]]
+        if isinstance(n, A.WhileLoop):
+            return [6, self.body(n.body, where)]
+        if isinstance(n, A.ForRangeLoop):
+            return [7, self.body(n.body, where)]
+        if isinstance(n, A.TryStatement):
+            return [8, [self.body(n.try_body, where)] + [self.body(h.body, where) for h in n.handlers]]
+        if t in ONE_LINE_CMDS:
+            return [9, str(n.name)]
+        if t in OTHER_LCD_CMDS or t == "ServoWriteMicroseconds":
+            self.unsupported.append(f"{where}: {t} (emits a number of lines the item model does not describe)")
+            return [4]
+        if t.endswith("Decl"):
+            return [3]
+        return [4]
+
+    def program(self, p):
+        fns = [self.body(f.body, f"fn:{f.name}") if isinstance(f, A.FunctionDef) else [self.node(f, "functions")] for f in p.functions]
+        return [self.body(p.setup_body, "setup"), self.body(p.loop_body, "loop"), fns, self.body(p.global_decls, "globals")]
+
+
 def one(src):
     prog = parse(src)
     libs = _collect_required_libraries(prog)
     sk = Skel()
     skeleton = sk.program(prog)      # before emit(): emit must not be able to disturb what the walk saw
+    it = Items()
+    items = it.program(prog)
     libs_json = [x if isinstance(x, str) else repr(x) for x in libs]
     cpp = emit(prog)
     libs_after = _collect_required_libraries(prog)
     return {"ok": True, "libs": libs_json, "libs_after_emit": [x if isinstance(x, str) else repr(x) for x in libs_after],
             "cpp": cpp, "libsec": pio._format_lib_section(libs), "skeleton": skeleton,
-            "names": sk.names, "unencodable": sk.unencodable}
+            "names": sk.names, "unencodable": sk.unencodable, "items": items, "items_unsupported": it.unsupported}
 
 
 def main():
